@@ -127,8 +127,60 @@ def check_program(node, rec=None):
         rec.case({'program': progs.show(node), 'ast': node, 'keys': m.keys}, nt, cls, size=progs.size(node))
 
 
+def check_stamped_cache(case):
+    """Below a cache sits a stage whose result is not reproducible (every call stamps its own number): whatever was
+    stored for a key is THE example of that key - items() pairs every key with the very example that iteration,
+    ds[key] and ds[i] deliver, in whichever order these are first asked."""
+    import itertools
+    import shutil
+    import tempfile
+    import lazy_dataset
+    n = case['n']
+    keys = [f'key{i}' for i in range(n)]
+    counter = itertools.count(1)
+
+    def stamp(x):
+        return (x, next(counter))
+    tmp = None
+    ds = lazy_dataset.new({k: ('s', i) for i, k in enumerate(keys)}).map(stamp)
+    if case['cache'] == 'disk':
+        tmp = tempfile.mkdtemp(prefix='verif_c03_')
+        ds = ds.diskcache(tmp + '/c', reuse=False, clear=True)
+    else:
+        ds = ds.cache(keep_mem_free='1 KB')
+    top = ds.map(lambda x: ('above', x)) if case['above'] else ds
+    unwrap = (lambda v: v[1]) if case['above'] else (lambda v: v)
+    views = {}
+    try:
+        for what in case['order']:
+            if what == 'items':
+                got = list(top.items())
+                if [k for k, _ in got] != keys:
+                    raise Violation('stamped-cache-keys', f'{case}\nitems() keys {[k for k, _ in got]}')
+                views['items'] = [unwrap(v) for _, v in got]
+            elif what == 'iter':
+                views['iter'] = [unwrap(v) for v in top]
+            elif what == 'key':
+                views['key'] = [unwrap(top[k]) for k in reversed(keys)][::-1]
+            elif what == 'index':
+                views['index'] = [unwrap(top[i]) for i in range(n)]
+        names = list(views)
+        for a, b in zip(names, names[1:]):
+            if views[a] != views[b]:
+                raise Violation(f'stamped-cache-disagree|{a}-vs-{b}',
+                                f'{case}\n(order of first use: {case["order"]}) {a} delivers {views[a]}\n'
+                                f'{b} delivers {views[b]}: one key, two different stored examples')
+    finally:
+        del ds, top
+        if tmp:
+            shutil.rmtree(tmp, ignore_errors=True)
+
+
 def replay(case):
     progcheck.setup_process()
+    if case.get('stamped'):
+        check_stamped_cache(case)
+        return
     if case.get('live_dict'):
         check_live_dict(case)
         return
@@ -178,6 +230,25 @@ def run_shard(tier, idx, nshards, rec, known):
                         o0.violation = (case, v.sig, v.detail)
                         return [o0]
                     rec.case(case, True, ['live-dict', 'top:' + top], size=n)
+    if idx == 1 % nshards:
+        import itertools
+        import shutil as _sh
+        import types
+        _sh.disk_usage = lambda p: types.SimpleNamespace(total=10 ** 13, used=0, free=10 ** 13)
+        from ..common import Outcome
+        o1 = Outcome()
+        for cache in ('mem', 'disk'):
+            for above in (False, True):
+                for order in itertools.permutations(('items', 'iter', 'key', 'index'), 3):
+                    case = {'stamped': True, 'n': 3, 'cache': cache, 'above': above, 'order': list(order)}
+                    try:
+                        check_stamped_cache(case)
+                    except Violation as v:
+                        if known.match(v.sig):
+                            continue
+                        o1.violation = (case, v.sig, v.detail)
+                        return [o1]
+                    rec.case(case, True, ['stamped-cache:' + cache], size=3)
     out = progcheck.run(lambda node: check_program(node, rec), rec, known, 'full', N[tier], seed() * 1000 + idx,
                         ctx_kw={'dict_weight': 5})
     if out.violation:
